@@ -3,7 +3,7 @@
 #![allow(dead_code, static_mut_refs)]
 use core::task::{RawWaker, RawWakerVTable, Waker};
 
-pub const NW: usize = 4;
+pub const NW: usize = 6;
 /// number of wake()/wake_by_ref() invocations per waker identity
 pub static mut WAKES: [u8; NW] = [0; NW];
 /// order of invocations
